@@ -386,8 +386,19 @@ func runSlots(g *gen, sc Scenario, idx int, seed uint64, tier string, cs constsR
 		counts: []string{fmt.Sprintf("slots:workers-%s", map[bool]string{true: "default", false: fmt.Sprint(workers)}[workers == 0]),
 			"slots:fault-" + []string{"none", "damaged-docs", "active-panic"}[mode]},
 	})
+	if !allReturned && died == "" {
+		// a call of the history hung: one ordinary request through GrpcV1.Fetch under a short deadline shows what a
+		// client of the store sees from now on
+		ids := lists[2]
+		if len(ids) == 0 {
+			ids = lists[0]
+		}
+		_, herr := probe(3000, request{kind: "fetch-after-history", ids: ids, timeoutMs: 5000,
+			history: map[string]any{"fetch_workers": resp.Cap, "steps": hist, "slots_left_in_use": leaked, "a_call_of_the_history_hung": true}}, arm, dmg)
+		return herr
+	}
 	if !allReturned {
-		return nil // a call of the history hung: a request through GrpcV1.Fetch would only wait for its deadline
+		return nil
 	}
 	// ordinary requests through GrpcV1.Fetch after the history, each under a deadline
 	probes := [][]ReqID{lists[2], lists[0], lists[3]}
